@@ -80,6 +80,16 @@ try:
         meta["caught_by_target"] = detected.get(target, {}).get("rc") == 1
     dst = "/verif/seeded/%s" % sid
     os.makedirs(dst, exist_ok=True)
+    # keep what earlier evaluations found (a change first missed by its target check stays recorded as such)
+    if os.path.exists(dst + "/meta.json"):
+        try:
+            prev = json.load(open(dst + "/meta.json"))
+            meta["history"] = prev.get("history", [])
+            if prev.get("confirmed") and not prev.get("caught_by_target") and "checks" in prev:
+                meta["history"].append("earlier run: missed by %s (caught by %s)%s" % (
+                    target, ", ".join(prev.get("caught_by", [])) or "none", (": " + os.environ["NOTE"]) if os.environ.get("NOTE") else ""))
+        except Exception:
+            pass
     shutil.copy(diff, dst + "/patch.diff")
     shutil.copy(demo, dst + "/demo.rs")
     json.dump(meta, open(dst + "/meta.json", "w"), indent=1)
